@@ -6,9 +6,9 @@ CONSTANTS
   Q = 2
   Slash = 40000
   Fees = {10000, 40000}
-  Gaps = {1, 2, 3, 5, 7}
+  Gaps = {1, 2, 3, 4, 5, 6, 7}
   MaxId = 3
-  MaxNow = 12
+  MaxNow = 16
 INVARIANT Inv
 PROPERTIES StatusGraph ExecutionIsFinal ClosedStaysClosed
 CHECK_DEADLOCK FALSE
